@@ -148,6 +148,10 @@ def _install_thread_seam():
 
 
 def install_repo_path():
+    # '' (= the current directory, looked up at every import) must go: the simulator changes the
+    # working directory to its scratch root, and import-system probes there would become events
+    while "" in sys.path:
+        sys.path.remove("")
     if REPO in sys.path:
         sys.path.remove(REPO)
     sys.path.insert(0, REPO)
